@@ -29,10 +29,10 @@ class C18(PropBase):
             proj = gen.gen_project(rng, n_units=rng.randint(1, 3), inline=0.3, max_atoms=3, headers=1.0, wp=rng.chance(0.2), hdr_inline=0.5)
         elif focus:
             proj = gen.gen_project(rng, n_units=rng.randint(2, 3), inline=0.1, max_atoms=2, headers=1.0, wp=rng.chance(0.3), cfg_blocks=0.1,
-                                   hdr_inline=0.2, computed_inc=0.2)
+                                   hdr_inline=0.2, computed_inc=0.2, nested_hdr=0.4)
         else:
-            proj = gen.gen_project(rng, n_units=rng.randint(1, 5), inline=0.2, same_basename=0.15, max_atoms=4, hdr_inline=0.15, computed_inc=0.15)
-        ekinds = ["token", "drop_include", "comment", "touch", "drop_include", "header", "inline_hdr"] if focus else gen.EDIT_KINDS + ["inline_hdr_nomatch"]
+            proj = gen.gen_project(rng, n_units=rng.randint(1, 5), inline=0.2, same_basename=0.15, max_atoms=4, hdr_inline=0.15, computed_inc=0.15, nested_hdr=0.3)
+        ekinds = ["token", "drop_include", "comment", "touch", "drop_include", "header", "inner_header", "inline_hdr"] if focus else gen.EDIT_KINDS + ["inline_hdr_nomatch", "inner_header"]
         if supp:
             ekinds = ["touch", "touch", "inline_nomatch", "inline_nomatch", "inline_remove", "inline_remove", "inline_add", "inline_hdr", "inline_hdr_nomatch", "comment", "token"]
         opts = {"--enable": rng.choice(["--enable=style,warning,performance,portability", "--enable=all", "--enable=style,information", ""])}
